@@ -114,6 +114,13 @@ class VObj(V):
 
 
 @dataclass
+class VOptInt(V):
+    """int | None as one symbolic value (z3 datatype OptInt)."""
+
+    t: Any
+
+
+@dataclass
 class VOpaque(V):
     """A value the engine carries around but cannot inspect (uninterpreted)."""
 
